@@ -42,6 +42,13 @@ func newCtx(id, tier string, seed int64) (*Ctx, error) {
 	if err != nil {
 		return nil, err
 	}
+	// stale witnesses of an earlier run with the same id and seed would be
+	// confusing next to new ones
+	if old, _ := filepath.Glob(filepath.Join(run.VerifDir(), "replays", fmt.Sprintf("%s-%d-*", id, seed))); len(old) > 0 {
+		for _, d := range old {
+			os.RemoveAll(d)
+		}
+	}
 	c := &Ctx{
 		ID: id, Tier: tier, Seed: seed, Env: env,
 		Known:     findings.Load(filepath.Join(run.VerifDir(), "KNOWN_FINDINGS.txt")),
